@@ -270,6 +270,8 @@ func init() {
 		assumptions: []string{"json.Unmarshal into model.DecisionMaker equals gin's ShouldBindJSON (no binding tags)", "the registries of main.go are used as they are"},
 		streams: []*stream{
 			{name: "random", n: tierN(28000, 1000000), unit: 7000, run: c01Random, floors: map[string]int64{"nontrivial": 2000, "with_tie_group": 300}},
+			{name: "random-service", n: tierN(6000, 100000), unit: 3000, run: c01Random, service: true,
+				note: "the same generator and oracle as the stream named in front of the dash, but every request goes through decideHandler of main.go in-process (gin binding, the handler's own request object) after a history of 1..3 unrelated requests (accepted and rejected)"},
 			{name: "tieBlocks", n: tierN(4000, 200000), unit: 4000, run: c01TieBlocks, floors: map[string]int64{"with_tie_group": 300}},
 			{name: "majorityShapes", n: func(string) int { return majShapeCount() }, unit: 4000, run: c01MajShapes, exhaustive: true,
 				note: "all outcome sequences of a one-criterion majority tournament for n<=7 alternatives x 5 policies x 3 currentChoice kinds"},
